@@ -61,10 +61,15 @@ def check_tab(cfg, system, ref, r, desc, rec):
         cfg["_single"] = single_point_values(system, g, cfg["tab_q"], cfg["ibands"])
     if cfg["ibands"] is not None:
         rec.fire("band_selection")
+    nb_sel = len(cfg["ibands"]) if cfg["ibands"] is not None else None
     for q in cfg["tab_q"]:
         want = cfg["_single"][q]                       # (npoints, nb, [3..])
         got = tab.get_data(quantity=q)
         got = np.asarray(got).reshape((-1,) + want.shape[1:])
+        # get_data with a single band index (int) must be the corresponding slice
+        one = np.asarray(tab.get_data(quantity=q, iband=0)).reshape((-1,) + want.shape[2:])
+        if np.max(np.abs(one - got[:, 0])) > 0:
+            return ("get_data_iband", f"{desc}: get_data('{q}', iband=0) is not band 0 of get_data('{q}')")
         scale = float(np.max(np.abs(want))) if want.size else 1.0
         err = np.abs(got - want).reshape(len(want), -1).max(axis=1)
         rec.fire("slots_checked", len(want))
@@ -77,7 +82,7 @@ def check_tab(cfg, system, ref, r, desc, rec):
         res = tab.results[q]
         data = res.data
         nd = data.ndim - 2
-        comps = [None] if nd == 0 else (["x", "y", "z", "norm", "sq", (0,), (2,)] if nd == 1 else ["trace", "xy", "zz", (0, 1), (2, 2)])
+        comps = [None] if nd == 0 else (["x", "y", "Z", "norm", "sq", (0,), (2,)] if nd == 1 else ["trace", "xy", "yx", "ZZ", "Xz", (0, 1), (1, 0), (2, 2)])
         for c in comps:
             try:
                 gotc = res.get_component(c)
@@ -95,7 +100,7 @@ def check_tab(cfg, system, ref, r, desc, rec):
             elif c == "trace":
                 wantc = data[:, :, 0, 0] + data[:, :, 1, 1] + data[:, :, 2, 2]
             else:
-                wantc = data[(slice(None), slice(None)) + tuple(xyz[ch] for ch in c)]
+                wantc = data[(slice(None), slice(None)) + tuple(xyz[ch] for ch in c.lower())]
             rec.fire("components_checked")
             if gotc.shape != wantc.shape or np.max(np.abs(gotc - wantc)) > 1e-12 * max(1.0, float(np.max(np.abs(wantc)))):
                 return ("component", f"get_component({c!r}) of '{q}' is not the corresponding operation on the stored tensor")
